@@ -319,3 +319,23 @@ def streams(r):
                 continue
         out.append((pc, ("tuple", (v,)), n))
     return out
+
+
+def delegate(run, rule, sub_prop, fn, only_rules=None, note=""):
+    """Run rules that belong to another property as premises of this one: their obligations are re-labelled *rule*
+    (kind prefixed with the original rule id) so that a violation of the premise is reported by this property's check."""
+    from sa import report
+    sub = report.Run(sub_prop, run.project, run.tier)
+    fn(sub)
+    n = 0
+    for o in sub.obs:
+        if only_rules is not None and o.rule not in only_rules:
+            continue
+        o.kind = ("%s:%s" % (o.rule, o.kind)) if o.kind else ""
+        o.rule = rule
+        if note and o.msg:
+            o.msg = "%s [%s]" % (o.msg, note)
+        run.obs.append(o)
+        n += 1
+    run.analysed_funcs |= sub.analysed_funcs
+    return n
